@@ -560,5 +560,8 @@ func schemaParams() *fakeMD {
 		&fakeFD{name: "mp", kind: protoreflect.MessageKind, msg: sub, isMap: true},
 		&fakeFD{name: "long_name", json: "longName", kind: protoreflect.StringKind},
 		&fakeFD{name: "i", kind: protoreflect.Int32Kind},
+		&fakeFD{name: "bo", kind: protoreflect.BoolKind},
+		&fakeFD{name: "l", kind: protoreflect.Int64Kind},
+		&fakeFD{name: "u", kind: protoreflect.Uint32Kind},
 	)
 }
